@@ -290,6 +290,19 @@ def r6(ctx):
     VC = '<ic_btc_canister::validation::ValidationContext as ic_btc_validation::header::HeaderStore>::'
     NH = P.call('ic_btc_canister::utxo_set::UtxoSet::next_height', P.field('utxos', P.field('state', P.param('self'))))
     CHAIN = P.field('chain', P.param('self'))
+    # the walk-back loops of the validator stop at the store's initial hash: for the canister's store that
+    # is the trait's default (the header at height 0, i.e. genesis) — not the anchor of the unstable blocks
+    ims = [im for im in prog.impls if im['trait'].endswith('header::HeaderStore') and im['self'].get('adt') == 'ic_btc_canister::validation::ValidationContext']
+    dflt = prog.fn('ic_btc_validation::header::HeaderStore::get_initial_hash', required=False)
+    okd = False
+    if dflt is not None:
+        r = ex(prog, dflt).local(0)
+        okd = P.call('*::block_hash', P.call('core::option::Option::expect', P.call('*::get_with_height', P.param('self'), P.const(0)), P.anything))(r)
+        ctx.touch(dflt)
+    ctx.check(len(ims) == 1 and 'get_initial_hash' not in ims[0]['fns'] and okd, 'R6', 'initial-hash-is-genesis', dflt or '',
+              'the canister\'s header store uses the default get_initial_hash = hash of the header at height 0',
+              'the canister\'s header store redefines get_initial_hash (or the default changed): the median-time-past and min-difficulty walk-backs stop '
+              'before reaching 11 predecessors / the last non-minimum-difficulty block')
     f = ctx.fn('R6', VC + 'height')
     if f:
         r = ex(prog, f).local(0)
